@@ -146,6 +146,51 @@ def interp(e, env):
     raise ValueError(op)
 
 
+def _interp_noisy(e, env, rnd):
+    """interp with a relative perturbation of +-2^-48 (about 16 ulp) injected into the result of every operation"""
+    op = e["op"]
+    if op == "sym":
+        return env[e["name"]]
+    if op == "const":
+        return e["val"][0] / e["val"][1]
+    if op in ("add", "sub", "mul", "div"):
+        a, b = _interp_noisy(e["l"], env, rnd), _interp_noisy(e["r"], env, rnd)
+        v = a + b if op == "add" else a - b if op == "sub" else a * b if op == "mul" else a / b
+    elif op == "neg":
+        return -_interp_noisy(e["a"], env, rnd)
+    elif op == "pow":
+        v = _interp_noisy(e["b"], env, rnd) ** int(e["n"])
+    elif op == "fn":
+        v = _FN[e["f"]](_interp_noisy(e["a"], env, rnd))
+    else:
+        raise ValueError(op)
+    return v * (1.0 + (rnd.random() * 2.0 - 1.0) * 2.0 ** -48)
+
+
+def interp_spread(e, env, trials=6):
+    """How far the value of the tree moves when every intermediate result is perturbed by ~16 ulp: a measure of how
+    ill-conditioned the floating-point evaluation of this expression is at this point (sin of a huge number, differences of
+    nearly equal terms, poles).  Two correct evaluations (another association order, constants folded in higher precision)
+    may legitimately differ by a fraction of this.  Returns +inf where a perturbed evaluation leaves the domain."""
+    import random
+    rnd = random.Random(20260928)
+    try:
+        v0 = interp(e, env)
+        worst = 0.0
+        for _ in range(trials):
+            worst = max(worst, abs(_interp_noisy(e, env, rnd) - v0))
+        return worst if worst == worst else float("inf")
+    except (ZeroDivisionError, ValueError, OverflowError):
+        return float("inf")
+
+
+def well_conditioned(e, env, v=None, rel=1e-9):
+    """True iff perturbing every intermediate by ~16 ulp moves the value by less than a quarter of the comparison tolerance"""
+    if v is None:
+        v = interp(e, env)
+    return 4.0 * interp_spread(e, env) <= rel * max(1.0, abs(v))
+
+
 def interp_exact(e, env):
     """Exact evaluation on the rational fragment with Fractions (used ONLY to cross-validate
     `interp` and TLC against each other; never as an oracle).  None if undefined."""
